@@ -969,6 +969,29 @@ func substituteEqualities(need linExpr, facts []linExpr) linExpr {
 	return need
 }
 
+// substituteEqualitiesAny: like substituteEqualities but does not insist that the
+// result be smaller, and never rewrites an equality with itself.
+func substituteEqualitiesAny(e linExpr, facts []linExpr) linExpr {
+	neg := func(f linExpr) string { return newLin().add(f, -1).String() }
+	strs := map[string]bool{}
+	for _, h := range facts {
+		strs[h.String()] = true
+	}
+	for _, f := range facts {
+		if !f.ok || !strs[neg(f)] || f.String() == e.String() || neg(f) == e.String() {
+			continue
+		}
+		for a, cf := range f.coef {
+			nc, in := e.coef[a]
+			if !in || (cf != 1 && cf != -1) {
+				continue
+			}
+			return e.add(f, -nc/cf)
+		}
+	}
+	return e
+}
+
 func (g *lgEngine) prove(need linExpr, facts []linExpr) bool {
 	if !need.ok {
 		return false
@@ -981,6 +1004,23 @@ func (g *lgEngine) prove(need linExpr, facts []linExpr) bool {
 	for _, f := range facts[:len(facts):len(facts)] {
 		if len(f.atom) > 0 && len(facts) < 200 {
 			facts = append(facts, g.defFacts(f, facts, 1)...)
+		}
+	}
+	// facts rewritten through the equalities among them (len(x.f) = n  ⇒  every fact about len(x.f) also holds of n)
+	if len(facts) < 120 {
+		base := facts[:len(facts):len(facts)]
+		seen := map[string]bool{}
+		for _, f := range base {
+			seen[f.String()] = true
+		}
+		for _, f := range base {
+			if !f.ok {
+				continue
+			}
+			if r := substituteEqualitiesAny(f, base); r.ok && !seen[r.String()] && len(r.coef) > 0 {
+				seen[r.String()] = true
+				facts = append(facts, r)
+			}
 		}
 	}
 	cands := []linExpr{need, substituteEqualities(need, facts)}
